@@ -69,15 +69,26 @@ def check_jumpset(crate, opt, vm, rep, cfg):
         some = {v for v, o in tab.items() if o == "some"}
         maybe = {v for v, o in tab.items() if o == "maybe"}
         if some and not maybe:
-            for sb2, tgt2 in rrec.ok_edges_of_call(opt, crate, bb):
-                multi.append((bb, {v: tgt2 for v in some}, tgt2))
+            # the Some edge of the accessor's result, or of an Option adapter applied to it (`.and_then(..)`, `.map(..)`, `.filter(..)`:
+            # their Some implies the accessor's Some)
+            carriers = [bb]
+            d = t["dest"]["l"]
+            for b3, t3 in opt.calls():
+                if callee_def(t3).rsplit("::", 1)[-1] in ("and_then", "map", "filter") and "Option" in callee_def(t3) and t3["args"] and \
+                        t3["args"][0]["k"] in ("copy", "move") and t3["args"][0]["pl"]["l"] == d:
+                    carriers.append(b3)
+            for cb_ in carriers:
+                for sb2, tgt2 in rrec.ok_edges_of_call(opt, crate, cb_):
+                    multi.append((bb, {v: tgt2 for v in some}, tgt2))
     tr = Tracer(opt)
     mark, fix = None, None
     for sb, listed, via in multi:
         tgt = next(iter(listed.values()))
         region = opt.reach_from(tgt, removed_blocks=frozenset([sb])) if via is None else {x for x in opt.reach_from(via) if opt.dominates(via, x)}
         # marking loop: writes a Vec<bool>; fix-up loop: assigns through the payload reference
-        writes_bool = any("Vec<bool>" in (t["atys"][0] if t["atys"] else "") for bb, t in find_calls(opt, ["std::ops::IndexMut::index_mut"], blocks=sorted(region)))
+        writes_bool = any("Vec<bool>" in (t["atys"][0] if t["atys"] else "") for bb, t in find_calls(opt, ["std::ops::IndexMut::index_mut"], blocks=sorted(region))) or \
+            any(callee_def(t).endswith("::get_mut") and "bool" in (t["atys"][0] if t["atys"] else "") for bb, t in opt.calls(sorted(region))) or \
+            any(i2 != "t" and st.get("k") == "assign" and pl_projs(st["pl"]) == ["deref"] and opt.local_ty(st["pl"]["l"]) == "&mut bool" for b2, i2, st in opt.stmts(sorted(region)))
         if writes_bool and mark is None:
             mark = (sb, set(listed))
         else:
